@@ -9,8 +9,6 @@ From AgileV Require Import Evo.Heap Evo.Evo Evo.EvoProofs C07.Model C07.Proofs C
 Import ListNotations.
 Open Scope N_scope.
 
-Definition hook_targets (h : hook) : list name := match h with HShare _ others => others | _ => [] end.
-Definition share_targets (r : registry) : list name := flat_map hook_targets (r_hooks r).
 Definition share_compat (r : registry) (B : blocks) : Prop := forall o, In o (share_targets r) -> getb (o, cEnc) B = [].
 
 (* ---- block-level effect of hooks --------------------------------------------------------------- *)
@@ -119,4 +117,269 @@ Proof.
       pose proof (bk_ok_run_hook (HShare p r)) as BK. cbn [hook_targets] in BK. unfold run_hook, seqL in BK.
       etransitivity; [exact (BK x3 (o, cEnc) E')|exact H3].
   - rewrite (bk_ok_run_hook h x (o, cEnc) E). exact HE.
+Qed.
+
+Lemma share_step_keys p o' x :
+  map fst (a_blocks (snd (wfresh (o', cBuf) (realloc (o', cEnc) [] (realloc (o', cHenc) (map CopyOf (blk (snd x) (p, cEnc))) x))))) =
+  map fst (a_blocks (snd x)).
+Proof.
+  pose proof (struct_ok_fields _ x (struct_ok_realloc (o', cHenc) (map CopyOf (blk (snd x) (p, cEnc))))) as (_ & _ & _ & _ & _ & _ & K1).
+  set (x1 := realloc (o', cHenc) (map CopyOf (blk (snd x) (p, cEnc))) x) in *.
+  pose proof (struct_ok_fields _ x1 (struct_ok_realloc (o', cEnc) [])) as (_ & _ & _ & _ & _ & _ & K2).
+  unfold wfresh. cbn [snd]. rewrite K2, K1. reflexivity.
+Qed.
+
+Lemma hook_empties_target p : forall others x o, In o others -> In (o, cEnc) (map fst (a_blocks (snd x))) ->
+  getb (o, cEnc) (a_blocks (snd (run_hook (HShare p others) x))) = [].
+Proof.
+  induction others as [|o' r IH]; intros x o Hin Hk; [contradiction|].
+  unfold run_hook, seqL. cbn [flat_map map fold_left app].
+  set (x1 := realloc (o', cHenc) (map CopyOf (blk (snd x) (p, cEnc))) x).
+  set (x2 := realloc (o', cEnc) [] x1). set (x3 := wfresh (o', cBuf) x2).
+  assert (K3 : map fst (a_blocks (snd x3)) = map fst (a_blocks (snd x))) by apply share_step_keys.
+  change (getb (o, cEnc) (a_blocks (snd (run_hook (HShare p r) x3))) = []).
+  destruct (N.eqb_spec o' o) as [->|Hne].
+  - apply hook_keeps_empty. unfold x3, wfresh. cbn [snd]. unfold x2, realloc. destruct x1 as [s1 a1] eqn:E1. cbn [fst snd alloc with_blocks a_blocks].
+    apply getb_setb_same.
+    pose proof (struct_ok_fields _ x (struct_ok_realloc (o, cHenc) (map CopyOf (blk (snd x) (p, cEnc))))) as (_ & _ & _ & _ & _ & _ & K1).
+    fold x1 in K1. rewrite E1 in K1. cbn [snd] in K1. rewrite K1. exact Hk.
+  - destruct Hin as [Hin|Hin]; [congruence|]. apply IH; auto. rewrite K3. exact Hk.
+Qed.
+
+Lemma hooks_keep_empty : forall hs x o, getb (o, cEnc) (a_blocks (snd x)) = [] ->
+  getb (o, cEnc) (a_blocks (snd (seqL (map run_hook hs) x))) = [].
+Proof.
+  unfold seqL. induction hs as [|h r IH]; intros x o H; cbn [map fold_left]; auto. apply IH. apply hook_keeps_empty; auto.
+Qed.
+
+Lemma hooks_target_empty : forall hs x o, In o (flat_map hook_targets hs) -> In (o, cEnc) (map fst (a_blocks (snd x))) ->
+  getb (o, cEnc) (a_blocks (snd (seqL (map run_hook hs) x))) = [].
+Proof.
+  induction hs as [|h r IH]; intros x o Hin Hk; [contradiction|].
+  cbn [flat_map] in Hin. unfold seqL. cbn [map fold_left].
+  change (getb (o, cEnc) (a_blocks (snd (seqL (map run_hook r) (run_hook h x)))) = []).
+  destruct (in_dec N.eq_dec o (hook_targets h)) as [Hh|Hn].
+  - apply hooks_keep_empty. destruct h as [e t|p others|]; cbn [hook_targets] in Hh; try contradiction.
+    apply hook_empties_target; auto.
+  - apply in_app_or in Hin as [Hin|Hin]; [contradiction|]. apply IH; auto.
+    destruct (struct_ok_fields _ x (struct_ok_run_hook h)) as (_ & _ & _ & _ & _ & _ & K). rewrite K. exact Hk.
+Qed.
+
+Lemma is_target_true os k : is_target os k = true -> exists o, k = (o, cEnc) /\ In o os.
+Proof.
+  unfold is_target. intros H. apply andb_true_iff in H as [H1 H2]. apply N.eqb_eq in H1.
+  apply existsb_exists in H2 as (o & Ho & E). apply N.eqb_eq in E. exists o. split; auto.
+  destruct k as [n c]. cbn [fst snd] in *. subst. reflexivity.
+Qed.
+
+(* length of a state_dict block after the hooks, for a file that is compatible with the sharing *)
+Lemma hooks_sd_len x k u B : is_sd k = true -> In k (map fst (a_blocks (snd x))) ->
+  share_compat (a_reg (snd x)) B -> getb k B = u ->
+  length (getb k (a_blocks (snd x))) = length u ->
+  length (getb k (a_blocks (snd (run_hooks x)))) = length u.
+Proof.
+  intros Hsd Hk SC HB HL. unfold run_hooks.
+  destruct (is_target (share_targets (a_reg (snd x))) k) eqn:T.
+  - apply is_target_true in T as (o & Ek & Ho).
+    assert (E : getb k (a_blocks (snd (seqL (map run_hook (r_hooks (a_reg (snd x)))) x))) = []).
+    { pose proof (hooks_target_empty (r_hooks (a_reg (snd x))) x o Ho) as HE. subst k. apply HE. exact Hk. }
+    assert (E2 : getb k B = []) by (pose proof (SC o Ho) as HS; subst k; exact HS).
+    rewrite E, <- HB, E2. reflexivity.
+  - rewrite (bk_ok_hooks_list (r_hooks (a_reg (snd x))) x k); auto.
+    unfold shareK. fold (share_targets (a_reg (snd x))). rewrite T.
+    destruct (cls_sd_not k Hsd) as (_ & _ & _ & Hh & _). rewrite Hh, (cls_sd_ext k Hsd). reflexivity.
+Qed.
+
+(* contents: hooks write only state_dict blocks, hidden blocks and the ext block *)
+Definition hookK2 (k : key) : bool := is_sd k || key_eqb kExt k || is_hidden k.
+
+Lemma hookK2_share o : hookK2 (o, cHenc) = true /\ hookK2 (o, cEnc) = true /\ hookK2 (o, cBuf) = true.
+Proof. unfold hookK2, is_sd, is_hidden, cls_in. cbn [snd existsb]. repeat split; cbn; rewrite ?orb_true_r; reflexivity. Qed.
+
+Lemma wr_ok_run_hook_any h : wr_ok hookK2 (run_hook h).
+Proof.
+  destruct h as [e t|p others|]; unfold run_hook.
+  - apply (wr_ok_if hookK2 (fun x => Nat.eqb (length (blk (snd x) (t, cEnc))) (length (blk (snd x) (e, cEnc))) &&
+                                     Nat.eqb (length (blk (snd x) (t, cHead))) (length (blk (snd x) (e, cHead))) &&
+                                     Nat.eqb (length (blk (snd x) (t, cBuf))) (length (blk (snd x) (e, cBuf))))).
+    + apply wr_ok_seqL; [repeat (apply Forall_cons; [apply local_ok_wcopy|]); apply Forall_nil|].
+      repeat (apply Forall_cons;
+        [eapply wr_ok_weaken; [|apply wr_ok_wcopy]; intros k Hk; apply key_eqb_eq in Hk; subst k; reflexivity|]).
+      apply Forall_nil.
+    + apply wr_ok_id.
+  - apply wr_ok_seqL.
+    + apply Forall_flat_map_ok. intros o. constructor; [|constructor; [|constructor; [|constructor]]].
+      * apply (local_ok_dep (fun y => realloc (o, cHenc) (map CopyOf (blk (snd y) (p, cEnc))))). intros; apply local_ok_realloc.
+      * apply local_ok_realloc.
+      * apply local_ok_wfresh.
+    + apply Forall_flat_map_gen. intros o. constructor; [|constructor; [|constructor; [|constructor]]].
+      * apply (wr_ok_dep hookK2 (fun y => realloc (o, cHenc) (map CopyOf (blk (snd y) (p, cEnc))))). intros y.
+        eapply wr_ok_weaken; [|apply wr_ok_realloc]. intros k Hk. apply key_eqb_eq in Hk. subst k. apply (hookK2_share o).
+      * eapply wr_ok_weaken; [|apply wr_ok_realloc]. intros k Hk. apply key_eqb_eq in Hk. subst k. apply (hookK2_share o).
+      * eapply wr_ok_weaken; [|apply wr_ok_wfresh]. intros k Hk. apply key_eqb_eq in Hk. subst k. apply (hookK2_share o).
+  - apply (wr_ok_dep hookK2 (fun y => realloc kExt (map (fun _ => FreshV) (blk (snd y) kExt)))). intros y.
+    eapply wr_ok_weaken; [|apply wr_ok_realloc]. intros k Hk. unfold hookK2. rewrite Hk. rewrite orb_true_r. reflexivity.
+Qed.
+Lemma wr_ok_run_hooks_any : wr_ok hookK2 run_hooks.
+Proof.
+  unfold run_hooks. apply (wr_ok_dep hookK2 (fun y => seqL (map run_hook (r_hooks (a_reg (snd y)))))). intros y.
+  apply wr_ok_seqL; [apply Forall_map_ok; apply local_ok_run_hook|apply Forall_map_gen; apply wr_ok_run_hook_any].
+Qed.
+
+Lemma cls_cc_not2 k : is_cc k = true -> hookK2 k = false.
+Proof. unfold hookK2. intros H. destruct (cls_cc_not k H) as (_ & _ & Hs & Hh & _ & Hd). unfold hookK in Hh. 
+  apply orb_false_iff in Hh as [_ He]. rewrite Hs, He, Hd. reflexivity. Qed.
+
+(* ---- the visible part of the view ---------------------------------------------------------------- *)
+Definition visible (bs : blocks) : blocks := filter (fun kv => negb (is_hidden (fst kv))) bs.
+Definition blob_ok2 (b : blob) : Prop :=
+  keys_nodupb (map fst (bl_blocks b)) = true /\
+  (forall kv, In kv (bl_blocks b) -> is_net (fst kv) || is_ost (fst kv) || is_attr (fst kv) = true).
+
+Theorem restore_visible_lemma b x0 :
+  okst x0 -> bfree (bl_blocks b) x0 -> map fst (a_blocks (snd x0)) = map fst (bl_blocks b) ->
+  blob_ok2 b -> share_compat (a_reg (snd x0)) (bl_blocks b) ->
+  let r := restore b x0 in
+  (a_index (snd r) = bl_index b /\ a_mut (snd r) = bl_mut b /\ a_arch (snd r) = bl_arch b /\ opt_view (snd r) = bl_opts b /\
+   a_hps (snd r) = bl_hps b /\ a_reg (snd r) = bl_reg b) /\
+  map fst (a_blocks (snd r)) = map fst (bl_blocks b) /\
+  (forall k u, In (k, u) (bl_blocks b) -> is_hidden k = false ->
+     map (rd (fst r)) (getb k (a_blocks (snd r))) = map (rd (fst x0)) u).
+Proof.
+  intros OK0 BF0 KE0 (KN & KC) SC. cbn zeta.
+  set (B := bl_blocks b) in *. set (s0 := fst x0). set (KS := map fst B) in *.
+  assert (ND : NoDup KS) by (apply keys_nodupb_NoDup; auto).
+  rewrite restore_unfold. fold B.
+  set (x1 := rebuild_nets B x0).
+  set (x2 := pure (fun a => with_arch a (bl_arch b)) x1).
+  set (x3 := run_hooks x2).
+  set (x4 := load_states B x3).
+  set (x5 := adopt is_ost B x4).
+  set (x6 := new_opts b x5).
+  set (x7 := adopt is_attr B x6).
+  set (x8 := set_attrs b x7).
+  assert (I0 : inv B s0 KS x0) by (split; [exact OK0|split; [exact BF0|split; [intros; reflexivity|exact KE0]]]).
+  assert (I1 : inv B s0 KS x1) by (apply inv_struct; auto; [apply local_ok_rebuild_nets|apply struct_ok_rebuild_nets]).
+  assert (I2 : inv B s0 KS x2) by (apply inv_pure; auto).
+  assert (I3 : inv B s0 KS x3) by (apply inv_struct; auto; [apply local_ok_run_hooks|apply struct_ok_run_hooks]).
+  assert (I4 : inv B s0 KS x4) by (apply inv_struct; auto; [apply local_ok_load_states|apply struct_ok_load_states]).
+  assert (I5 : inv B s0 KS x5) by (apply inv_struct; auto; [apply local_ok_adopt|apply struct_ok_adopt]).
+  assert (I6 : inv B s0 KS x6) by (apply inv_pure; auto).
+  assert (I7 : inv B s0 KS x7) by (apply inv_struct; auto; [apply local_ok_adopt|apply struct_ok_adopt]).
+  assert (I8 : inv B s0 KS x8) by (apply inv_pure; auto).
+  assert (R2 : a_reg (snd x2) = a_reg (snd x0)).
+  { unfold x2, pure. cbn [snd with_arch a_reg]. apply (struct_ok_fields _ x0 (struct_ok_rebuild_nets B)). }
+  split; [|split].
+  - (* fields *)
+    assert (F7 : a_arch (snd x7) = bl_arch b /\ opt_view (snd x7) = bl_opts b).
+    { destruct (struct_ok_fields _ x6 (struct_ok_adopt is_attr B)) as (_ & _ & A7 & O7 & _). fold x7 in A7, O7.
+      unfold opt_view. rewrite A7, O7. unfold x6, new_opts, pure. cbn [snd with_opts a_arch a_opts].
+      destruct (struct_ok_fields _ x4 (struct_ok_adopt is_ost B)) as (_ & _ & A5 & _). fold x5 in A5. rewrite A5.
+      destruct (struct_ok_fields _ x3 (struct_ok_load_states B)) as (_ & _ & A4 & _). fold x4 in A4. rewrite A4.
+      destruct (struct_ok_fields _ x2 struct_ok_run_hooks) as (_ & _ & A3 & _). fold x3 in A3. rewrite A3.
+      split; [reflexivity|]. rewrite map_map. cbn [o_name o_lr]. rewrite <- (map_id (bl_opts b)) at 2.
+      apply map_ext. intros [n q]. reflexivity. }
+    destruct F7 as [A7 O7]. unfold x8, set_attrs, pure, opt_view in *. cbn [snd a_index a_mut a_arch a_hps a_reg a_opts]. repeat split; auto.
+  - apply I8.
+  - intros k u Hin Hvis. change (cont x8 k = map (rd s0) u).
+    assert (Hk : forall x, inv B s0 KS x -> In k (map fst (a_blocks (snd x)))).
+    { intros x (_ & _ & _ & E). rewrite E. apply (in_map fst _ _ Hin). }
+    assert (Hrd : forall x, inv B s0 KS x -> map (rd (fst x)) u = map (rd s0) u).
+    { intros x (_ & _ & RD & _). apply map_ext_in. intros l Hl. apply RD. eapply in_locs_of; eauto. }
+    assert (Hbd : forall x, inv B s0 KS x -> forall l, In l u -> l < s_next (fst x)).
+    { intros x (_ & BF & _ & _) l Hl. eapply bfree_bound; eauto. }
+    pose proof (KC (k, u) Hin) as Cls. cbn [fst] in Cls.
+    apply orb_true_iff in Cls as [Cls|Cat]; [apply orb_true_iff in Cls as [Cnet|Cost]|].
+    + destruct (cls_net_split k Cnet) as [Csd|[Ccc|Chid]]; [| |congruence].
+      * destruct (cls_sd_not k Csd) as (No & Na & _ & _ & _).
+        unfold x8, set_attrs. rewrite pure_cont by reflexivity.
+        unfold x7. rewrite (cont_keep is_attr _ x6 k (wr_ok_adopt is_attr B) (proj1 I6) Na).
+        unfold x6, new_opts. rewrite pure_cont by reflexivity.
+        unfold x5. rewrite (cont_keep is_ost _ x4 k (wr_ok_adopt is_ost B) (proj1 I4) No).
+        unfold x4. rewrite (load_states_at B x3 k u (proj1 I3) ND Hin Csd).
+        -- apply Hrd; auto.
+        -- unfold x3. apply (hooks_sd_len x2 k u B Csd (Hk x2 I2)).
+           ++ rewrite R2. exact SC.
+           ++ apply getb_in; auto.
+           ++ unfold x2. rewrite pure_getb by reflexivity. unfold x1, rebuild_nets.
+              rewrite (pass_len is_net ctor_src B x0 k u OK0 ND Hin Cnet (Hk x0 I0)). apply ctor_src_sd; auto.
+        -- intros kv l Hkv Hl. apply (proj1 (proj2 I3)). unfold locs_of. apply in_concat. exists (snd kv). split; auto. apply in_map; auto.
+      * destruct (cls_cc_not k Ccc) as (No & Na & Ns & _ & _ & _).
+        unfold x8, set_attrs. rewrite pure_cont by reflexivity.
+        unfold x7. rewrite (cont_keep is_attr _ x6 k (wr_ok_adopt is_attr B) (proj1 I6) Na).
+        unfold x6, new_opts. rewrite pure_cont by reflexivity.
+        unfold x5. rewrite (cont_keep is_ost _ x4 k (wr_ok_adopt is_ost B) (proj1 I4) No).
+        unfold x4. rewrite (cont_keep is_sd _ x3 k (wr_ok_load_states B) (proj1 I3) Ns).
+        unfold x3. rewrite (cont_keep hookK2 _ x2 k wr_ok_run_hooks_any (proj1 I2) (cls_cc_not2 k Ccc)).
+        unfold x2. rewrite pure_cont by reflexivity.
+        unfold x1. apply (pass_copy is_net ctor_src B x0 k u OK0 ND Hin Cnet (Hk x0 I0) (ctor_src_cc k u Ccc) (Hbd x0 I0)).
+    + destruct (cls_ost_not k Cost) as (_ & Na & _ & _).
+      unfold x8, set_attrs. rewrite pure_cont by reflexivity.
+      unfold x7. rewrite (cont_keep is_attr _ x6 k (wr_ok_adopt is_attr B) (proj1 I6) Na).
+      unfold x6, new_opts. rewrite pure_cont by reflexivity.
+      unfold x5, adopt. rewrite (pass_copy is_ost (fun _ u => map CopyOf u) B x4 k u (proj1 I4) ND Hin Cost (Hk x4 I4) eq_refl (Hbd x4 I4)).
+      apply Hrd; auto.
+    + unfold x8, set_attrs. rewrite pure_cont by reflexivity.
+      unfold x7, adopt. rewrite (pass_copy is_attr (fun _ u => map CopyOf u) B x6 k u (proj1 I6) ND Hin Cat (Hk x6 I6) eq_refl (Hbd x6 I6)).
+      apply Hrd; auto.
+Qed.
+
+(* ---- save then load, every registry ---------------------------------------------------------------- *)
+Lemma contents_getb g g' k : forall bs bs', contf g bs = contf g' bs' -> map g (getb k bs) = map g' (getb k bs').
+Proof.
+  unfold contf. induction bs as [|kv r IH]; intros [|kv' r'] H; cbn [map getb] in *; try discriminate; auto.
+  injection H as K1 C1 T. rewrite K1. destruct (key_eqb k (fst kv')); auto.
+Qed.
+
+Lemma getb_mask_visible k : is_hidden k = false -> forall bs, getb k (mask_hidden bs) = getb k bs.
+Proof.
+  intros Hv. unfold mask_hidden. induction bs as [|kv r IH]; cbn [map getb]; auto.
+  destruct (is_hidden (fst kv)) eqn:E; cbn [fst snd]; destruct (key_eqb k (fst kv)) eqn:EK; auto.
+  apply key_eqb_eq in EK. subst k. congruence.
+Qed.
+
+Definition share_saved (a : agent) : Prop := forall o, In o (share_targets (a_reg a)) -> blk a (o, cEnc) = [].
+Lemma share_savedb_sound a : share_savedb a = true -> share_saved a.
+Proof.
+  unfold share_savedb, share_saved. rewrite forallb_forall. intros H o Ho. specialize (H o Ho).
+  cbv beta in H. match type of H with (match ?t with _ => _ end) = true => destruct t eqn:E end; [exact E|discriminate].
+Qed.
+
+Lemma enc_visible o : is_hidden (o, cEnc) = false.
+Proof. reflexivity. Qed.
+
+Theorem load_save_visible_lemma s a :
+  savable a = true -> bounded s (agent_locs a) -> share_saved a ->
+  let r := roundtrip s a in
+  (a_index (snd r) = a_index a /\ a_mut (snd r) = a_mut a /\ a_arch (snd r) = a_arch a /\ opt_view (snd r) = opt_view a /\
+   a_hps (snd r) = a_hps a /\ a_reg (snd r) = a_reg a) /\
+  map fst (a_blocks (snd r)) = map fst (a_blocks a) /\
+  (forall k, In k (map fst (a_blocks a)) -> is_hidden k = false ->
+     map (rd (fst r)) (blk (snd r) k) = map (rd s) (blk a k)).
+Proof.
+  intros SV B SS. cbn zeta. unfold roundtrip.
+  destruct (save_spec_lemma s a) as (S1 & S2 & S3 & S4 & S5 & F1 & F2 & F3 & F4 & F5 & F6).
+  specialize (S5 B).
+  destruct (save s a) as [s1 b]. cbn [fst snd] in *.
+  unfold savable in SV. apply andb_true_iff in SV as [SV KC]. apply andb_true_iff in SV as [KN LN].
+  assert (BO : blob_ok2 b).
+  { split; [rewrite S3; exact KN|]. intros kv Hkv.
+    assert (Hk : In (fst kv) (map fst (a_blocks a))) by (rewrite <- S3; apply in_map; auto).
+    apply in_map_iff in Hk as (kv' & E & Hin'). unfold known_cls in KC. rewrite forallb_forall in KC. rewrite <- E. apply KC; auto. }
+  assert (Hget : forall k, is_hidden k = false -> map (rd s1) (getb k (bl_blocks b)) = map (rd s) (blk a k)).
+  { intros k Hv. unfold blk. rewrite <- (getb_mask_visible k Hv (a_blocks a)). apply contents_getb. exact S5. }
+  assert (SC : share_compat (bl_reg b) (bl_blocks b)).
+  { intros o Ho. rewrite F6 in Ho. pose proof (Hget (o, cEnc) (enc_visible o)) as H. rewrite (SS o Ho) in H. cbn [map] in H.
+    destruct (getb (o, cEnc) (bl_blocks b)); auto. discriminate. }
+  assert (ND : NoDup (map fst (bl_blocks b))) by (apply keys_nodupb_NoDup; apply BO).
+  unfold load.
+  destruct (restore_visible_lemma b (s1, skeleton b)) as (RF & RK & RC); auto.
+  - split; cbn [fst snd]; rewrite skeleton_no_locs; [constructor|apply Forall_nil].
+  - intros l Hl. cbn [fst snd]. rewrite skeleton_no_locs. split; [|intros []]. rewrite S1 in Hl. apply in_nseq in Hl. lia.
+  - cbn [snd skeleton a_blocks]. rewrite map_map. reflexivity.
+  - cbn zeta in *. split; [|split].
+    + rewrite <- F1, <- F2, <- F3, <- F4, <- F5, <- F6. exact RF.
+    + rewrite RK. exact S3.
+    + intros k Hk Hv. rewrite <- S3 in Hk. apply in_map_iff in Hk as ([k' u] & E & Hin). cbn [fst] in E. subst k'.
+      unfold blk at 1. rewrite (RC k u Hin Hv). cbn [fst]. rewrite <- (getb_in k u (bl_blocks b) ND Hin). apply Hget; auto.
 Qed.
